@@ -29,7 +29,7 @@ def gen_banks(rng):
             outp = max(0, cursor - rng.choice([1, 2, 8]))   # overlapping the previous window
         else:
             outp = rng.choice([0, 8, 16, 100])
-        b = {"name": "bk%d" % i, "unit": unit, "addr": rng.choice([0, 0, 1, 0x10, 0x100, 0x8000]),
+        b = {"name": "bk%d" % i, "unit": unit, "addr": rng.choice([0, 0, 1, 0x10, 0x100, 0x8000, -1, -3, -4, -0x10, -0x100]),
              "size": size_units if has_size else None, "outp": outp if has_outp else None,
              "fill": rng.random() < 0.35, "labelalign": rng.choice([None, None, None, unit, 2 * unit, 16, 32]),
              "show_bits": rng.random() < 0.3}
@@ -70,8 +70,8 @@ def gen_items(rng, banks, isa):
             # forward / backward #addr relative to the bank start
             a = b["addr"] + rng.choice([0, 0, 1, 2, 3, 4, 8, 0x10, b["size"] or 5, (b["size"] or 5) - 1])
             if rng.random() < 0.08:
-                a = max(0, b["addr"] - 1)
-            items.append(("addr", ("int", a, None, "0x%x" % a) if rng.random() < 0.5 else num(a)))
+                a = b["addr"] - 1 if b["addr"] < 0 else max(0, b["addr"] - 1)
+            items.append(("addr", ("int", a, None, "0x%x" % a) if rng.random() < 0.5 and a >= 0 else num(a)))
         elif r < 0.95:
             items.append(("label", "L%d" % nlabels, 0))
             nlabels += 1
